@@ -239,6 +239,9 @@ class Scenario:
     cut: tuple | None = None          # ("c2s"|"s2c", rule) with rule = ("abs", off) | ("rec", k, mode)
     initiator: str = "client"         # which side closes first
     seed: int = 0
+    mode: str = "normal"              # "normal" | "half_close": client sends its items, then transport.send_eof()
+                                      #   WITHOUT close_notify and waits; the server reads to the end and THEN replies
+    cancel_probe: int = 0             # k > 0: every k-th receive() is called inside an already cancelled scope
 
     def to_json(self):
         return {k: getattr(self, k) for k in self.__dataclass_fields__}
@@ -270,6 +273,8 @@ class SideResult:
     close_done: bool = False
     ssl_read_outcomes: list = field(default_factory=list)
     mon: list[str] = field(default_factory=list)
+    cancelled_receives: int = 0
+    half_closed: bool = False
 
 
 class SSLProxy:
@@ -379,6 +384,7 @@ async def run_scenario(sc: Scenario, certs: Certs, idle_limit: int = 400):
 
             async def sender():
                 for it in items:
+                    conn.activity += 1
                     try:
                         await stream.send(it)
                     except Exception as e:  # noqa: BLE001
@@ -391,8 +397,20 @@ async def run_scenario(sc: Scenario, certs: Certs, idle_limit: int = 400):
                 while len(res.got) < expected:
                     n = sizes[i % len(sizes)]
                     i += 1
+                    conn.activity += 1
+                    probe = sc.cancel_probe and i % sc.cancel_probe == 0
                     try:
-                        data = await stream.receive(n)
+                        if probe:
+                            # a receive() that is cancelled must not have consumed anything
+                            data = None
+                            with anyio.CancelScope() as scope:
+                                scope.cancel()
+                                data = await stream.receive(n)
+                            if data is None:
+                                res.cancelled_receives += 1
+                                continue
+                        else:
+                            data = await stream.receive(n)
                     except Exception as e:  # noqa: BLE001
                         res.recv_exc = e
                         return
@@ -400,6 +418,23 @@ async def run_scenario(sc: Scenario, certs: Certs, idle_limit: int = 400):
                     if not (1 <= len(data) <= n):
                         res.mon.append(f"{role}: receive({n}) returned {len(data)} bytes")
                     res.got += data
+
+            if sc.mode == "half_close":
+                if role == "client":
+                    await sender()
+                    await ep.send_eof()            # ragged end of the client->server direction, no close_notify
+                    res.half_closed = True
+                    await receiver()               # ... and wait for the answer
+                else:
+                    await receiver()               # the request
+                    if res.recv_exc is None:
+                        try:
+                            res.final_data = await stream.receive(100)
+                            res.final_done = True
+                        except Exception as e:  # noqa: BLE001
+                            res.final_exc = e
+                    await sender()                 # the answer, AFTER the end of the request was seen
+                return
 
             async with anyio.create_task_group() as tg:
                 tg.start_soon(sender)
@@ -465,10 +500,14 @@ def monitors(sc: Scenario, res_c: SideResult, res_s: SideResult, conn: Connectio
     """Returns (violations: list[str], flags: set[str])."""
     import anyio
 
+    if sc.mode == "half_close":
+        return monitors_half_close(sc, res_c, res_s, conn, eps, deadlocked)
     v: list[str] = []
     flags: set[str] = set()
     if deadlocked:
         v.append("deadlock: every task is blocked and no byte moves (handshake or data never completes)")
+    if res_c.cancelled_receives or res_s.cancelled_receives:
+        flags.add("cancelled_receive")
     items = {"client": payload_bytes(sc.seed, "client", sc.payload_c),
              "server": payload_bytes(sc.seed, "server", sc.payload_s)}
     for ep in eps:
@@ -552,6 +591,58 @@ def monitors(sc: Scenario, res_c: SideResult, res_s: SideResult, conn: Connectio
             else:
                 if truncated and not peer_failed(peer):
                     v.append(f"{role}: H_ssl: truncated stream reported by the SSL object as {oc}")
+    return v, flags
+
+
+def monitors_half_close(sc: Scenario, res_c: SideResult, res_s: SideResult, conn: Connection, eps, deadlocked: bool):
+    """Client: request, transport.send_eof() (no close_notify), wait for the reply.  Server: read the request, read on
+    to the end, THEN reply.  standard_compatible=False on the server: the end is EndOfStream and the reply must be
+    sent and arrive byte for byte; standard_compatible=True: the end is BrokenResourceError (truncation)."""
+    import anyio
+
+    v: list[str] = []
+    flags: set[str] = {"half_close_" + ("std" if res_s.std else "nonstd")}
+    if deadlocked:
+        v.append("deadlock: every task is blocked and no byte moves")
+    for ep in eps:
+        v += ep.mon
+        flags |= ep.flags
+    v += res_c.mon + res_s.mon
+    request = b"".join(payload_bytes(sc.seed, "client", sc.payload_c))
+    reply = b"".join(payload_bytes(sc.seed, "server", sc.payload_s))
+    for res in (res_c, res_s):
+        if res.hs_exc is not None:
+            v.append(f"{res.role}: handshake failed on an intact connection: {exc_name(res.hs_exc)}")
+            return v, flags
+    if res_c.send_exc is not None:
+        v.append(f"client: send() of the request raised {exc_name(res_c.send_exc)}")
+    if bytes(res_s.got) != request:
+        v.append(f"server: received {len(res_s.got)} of {len(request)} request bytes ({exc_name(res_s.recv_exc)})")
+    if res_s.final_done:
+        v.append(f"server: receive() after the ragged end returned {len(res_s.final_data)} bytes instead of raising")
+    if res_s.recv_exc is None:
+        if res_s.std:
+            if not isinstance(res_s.final_exc, anyio.BrokenResourceError):
+                v.append(f"server (standard_compatible): stream that ended without the closing handshake reported as "
+                         f"{exc_name(res_s.final_exc)} instead of BrokenResourceError")
+            flags.add("half_close_broken_std")
+        else:
+            if not isinstance(res_s.final_exc, anyio.EndOfStream):
+                v.append(f"server (not standard_compatible): ragged end reported as {exc_name(res_s.final_exc)} "
+                         f"instead of EndOfStream")
+            # the other direction is still open: the reply must go out and arrive
+            if res_s.send_exc is not None or res_s.sent_items != len(sc.payload_s):
+                v.append(f"server (not standard_compatible): after receive() had reported the peer's ragged end as "
+                         f"EndOfStream, send() raised {exc_name(res_s.send_exc)} "
+                         f"({res_s.sent_items} of {len(sc.payload_s)} items sent): the still open direction is dead")
+            if bytes(res_c.got) != reply:
+                v.append(f"client: only {len(res_c.got)} of {len(reply)} reply bytes arrived after the half-close "
+                         f"({exc_name(res_c.recv_exc)}): data written in the still open direction is not transported")
+            elif reply:
+                flags.add("reply_after_ragged_eof_delivered")
+    got = bytes(res_c.got)
+    if got != reply[:len(got)]:
+        v.append("client: reply bytes differ from what the server sent")
     return v, flags
 
 
